@@ -22,48 +22,94 @@ HU = "dclab/http_utils.py"
 S3 = "dclab/rtdc_dataset/fmt_s3.py"
 
 
+class _Headers(dict):
+    """case-insensitive response headers (requests' CaseInsensitiveDict)"""
+
+    def __init__(self, d):
+        super().__init__({k.lower(): v for k, v in d.items()})
+
+    def __getitem__(self, k):
+        return super().__getitem__(k.lower())
+
+    def get(self, k, default=None):
+        return super().get(k.lower(), default)
+
+    def __contains__(self, k):
+        return super().__contains__(k.lower())
+
+
+STRONG_ETAG = '"0123456789abcdef"'
+WEAK_ETAG = 'W/"0123456789abcdef"'
+
+
 class Resp:
-    def __init__(self, content, total, url):
+    def __init__(self, content, total, url, etag=STRONG_ETAG, status=200):
         self.content = content
-        self.ok = True
-        self.status_code = 200
-        self.reason = "OK"
+        self.ok = status < 400
+        self.status_code = status
+        self.reason = "OK" if status < 400 else "Precondition Failed"
         self.url = url
-        self.headers = {"content-length": str(total),
-                        "etag": '"0123456789abcdef"'}
+        h = {"content-length": str(total)}
+        if etag is not None:
+            h["etag"] = etag
+        self.headers = _Headers(h)
+
+    def raise_for_status(self):
+        if not self.ok:
+            raise L.ModelFault("HTTPError", f"{self.status_code}", None)
 
 
 class Session:
     """model of a requests session serving one resource"""
 
-    def __init__(self, resource, url):
+    def __init__(self, resource, url, etag=STRONG_ETAG):
         self.res = resource
         self.url = url
+        self.etag = etag       # validator the server labels the resource with
         self.log = []          # (first, last) of every range request
         self.bad = []          # invalid / unsatisfiable range requests
+        self.if_range_failed = []
         self.other_url = []
+
+    def _full(self, url):
+        return Resp(self.res, len(self.res), url, self.etag)
 
     def get(self, url, headers=None, stream=False, timeout=None, **kw):
         if url != self.url:
             self.other_url.append(url)
-        rng = (headers or {}).get("Range")
+        hd = {str(k).lower(): v for k, v in (headers or {}).items()}
+        rng = hd.get("range")
+        # preconditions (RFC 9110 section 13)
+        im = hd.get("if-match")
+        if im is not None and im.strip() != "*" and not (
+                self.etag and not self.etag.startswith("W/")
+                and self.etag in [x.strip() for x in im.split(",")]):
+            return Resp(b"", len(self.res), url, self.etag, status=412)
         if rng is None:
-            return Resp(self.res, len(self.res), url)
+            return self._full(url)
         if not (isinstance(rng, str) and rng.startswith("bytes=")
                 and rng.count("-") >= 1):
             self.bad.append(rng)
-            return Resp(self.res, len(self.res), url)
+            return self._full(url)
         a, _, b = rng[6:].partition("-")
         try:
             a, b = int(a), int(b)
         except ValueError:
             self.bad.append(rng)
-            return Resp(self.res, len(self.res), url)
+            return self._full(url)
         self.log.append((a, b))
         if b < a or a >= len(self.res) or a < 0:
             self.bad.append(rng)
-            return Resp(self.res, len(self.res), url)
-        return Resp(self.res[a:b + 1], len(self.res), url)
+            return self._full(url)
+        ir = hd.get("if-range")
+        if ir is not None:
+            # strong comparison: a weak validator never matches, and a
+            # failed If-Range makes the server ignore the Range header
+            if not (self.etag and not self.etag.startswith("W/")
+                    and not str(ir).startswith("W/") and ir == self.etag):
+                self.if_range_failed.append(ir)
+                return self._full(url)
+        return Resp(self.res[a:b + 1], len(self.res), url, self.etag)
 
     def close(self):
         pass
@@ -101,9 +147,9 @@ class Model:
     """one HTTPFile instance on one resource"""
 
     def __init__(self, repo, resource, chunk_size, keep_chunks,
-                 url="http://host/res"):
+                 url="http://host/res", etag=STRONG_ETAG):
         self.it = L.Interp(repo)
-        self.session = Session(resource, url)
+        self.session = Session(resource, url, etag)
         self._sessions = {url: self.session}
         self.env = self.it.env(HU, _externals(self._sessions))
         cls = self.env.lookup("HTTPFile")
